@@ -604,6 +604,48 @@ type panicInfo struct {
 	stack string
 }
 
+var nexusDimRe = regexp.MustCompile(`^dimensions[ \t]+(ntax|nchar)[ \t]*=[ \t]*([0-9]{1,9})(?:[ \t]+(ntax|nchar)[ \t]*=[ \t]*([0-9]{1,9}))?[ \t]*;`)
+var nexusBeginRe = regexp.MustCompile(`begin[ \t]+(data|characters)[ \t]*;`)
+
+// nexusDeclared reads the counts a Nexus stream declares, in the one shape
+// where there is no doubt about what the parser must have seen: a single
+// block (DATA or CHARACTERS), no comment anywhere, one DIMENSIONS command
+// written on one line before the one MATRIX command. -1 = not declared.
+func nexusDeclared(data []byte) (ntax, nchar int, ok bool) {
+	s := strings.ToLower(string(data))
+	if strings.ContainsAny(s, "[]") || strings.Count(s, "dimensions") != 1 || strings.Count(s, "matrix") != 1 || strings.Count(s, "begin") != 1 {
+		return
+	}
+	b := nexusBeginRe.FindStringIndex(s)
+	d := strings.Index(s, "dimensions")
+	m := strings.Index(s, "matrix")
+	if b == nil || !(b[1] <= d && d < m) {
+		return
+	}
+	// DIMENSIONS must open a command: only blanks between the previous ';' and it
+	// (anything else makes it the tail of a command the parser skips)
+	if t := strings.TrimRight(s[:d], " \t\n"); !strings.HasSuffix(t, ";") {
+		return
+	}
+	g := nexusDimRe.FindStringSubmatch(s[d:])
+	if g == nil || g[1] == g[3] {
+		return
+	}
+	ntax, nchar = -1, -1
+	for _, kv := range [][2]string{{g[1], g[2]}, {g[3], g[4]}} {
+		v, err := strconv.Atoi(kv[1])
+		if kv[0] == "" || err != nil {
+			continue
+		}
+		if kv[0] == "ntax" {
+			ntax = v
+		} else {
+			nchar = v
+		}
+	}
+	return ntax, nchar, true
+}
+
 var phylipHeaderRe = regexp.MustCompile(`^[ \t\n]*([0-9]{1,9})[ \t]+([0-9]{1,9})[ \t]*\n`)
 
 func isBlank(b []byte) bool {
@@ -848,6 +890,13 @@ func (c03) Run(ctx *Ctx, ci interface{}) (o Outcome) {
 					}
 				}
 			case "nexus":
+				if nt, nc, ok := nexusDeclared(seenData); ok && c.Decl == nil {
+					o.Add("header_counts_checked", 1)
+					if (nt >= 0 && al.NbSequences() != nt) || (nc >= 0 && al.Length() != nc) {
+						fail("header-mismatch", "the DIMENSIONS command declares ntax=%d nchar=%d (-1 = not declared), the returned alignment has %d sequences of length %d", nt, nc, al.NbSequences(), al.Length())
+						return
+					}
+				}
 				if c.Decl != nil {
 					o.Add("header_counts_checked", 1)
 					if al.NbSequences() != c.Decl[0] || al.Length() != c.Decl[1] {
